@@ -45,10 +45,16 @@
     every store that denotes the document the parser returns for the print.
     NOT proved here: the expressions C05 does not support (namespace axis, id(), ...).  Those stay
     tested by the [Q] operations of checks/C14.py (queries on the edited document against a
-    re-parse, as pre-order ranks).  Trusted: that [xdoc_of_store] is the table the harness would dump for the real
-    document -- its ingredients ([parent_node], [child_view], [key], [owner_element], attribute
-    lists) are tied to the real dom by the `dom` correspondence of C12 / C14 on every run; the walk,
-    the in-scope namespaces and the names by the real dumps of [C14_view_is_real_dump]. *)
+    re-parse, as pre-order ranks).  That [xdoc_of_store] is the table the harness would dump for the real
+    (edited) document is CHECKED ON EVERY RUN of checks/C14.py (notes/c14tie_STATUS.md): the [X] operations
+    of the `dom` correspondence build the table of the edited document with the table builder of the xpath
+    domain ([Table::build], the one whose tables the evaluator model is tied on) and the model driver
+    prints the extracted [xdoc_of_store F merged s] of the store reached by the same operations, both
+    views; the rows are compared field by field (ids as handles, keys as ranks).  Its string facts [F]
+    (normalised attribute values, replacement texts of entity references) are read from the real items
+    and taken as given (the theorems quantify over all facts).  Outside that tie, explicitly counted:
+    tables with a failing string observation and DTD-defaulted attributes.  The real dumps of
+    [C14_view_is_real_dump] remain as kernel-checked instances. *)
 From Coq Require Import List NArith Bool Sorting.Sorted.
 From XmlRs Require Import Base.CPred.
 From XmlRs Require Import Model.XPathAst Model.XDoc Model.XPathEval Spec.XPath10
